@@ -68,7 +68,7 @@ fuzz_campaign() {
   local seed=$(( (${VERIF_SEED:-24301} % 2147483646) + 1 ))
   local jobs=${VERIF_FUZZ_JOBS:-8}
   local per=$(( runs / jobs ))
-  ( cd "$work" && ASAN_OPTIONS=detect_leaks=0:abort_on_error=0 "$bin" -runs=$per -seed=$seed -max_len=16384 -len_control=0 -rss_limit_mb=6144 -timeout=120 \
+  ( cd "$work" && ASAN_OPTIONS=detect_leaks=0:abort_on_error=0 "$bin" -runs=$per -seed=$seed -max_len=${FUZZ_MAX_LEN:-16384} -len_control=0 -rss_limit_mb=6144 -timeout=120 \
       -print_final_stats=1 -artifact_prefix="$work/artifacts/" -jobs=$jobs -workers=$jobs corpus > "$work/run.log" 2>&1 )
   local rc=$?
   local execs=0
